@@ -60,6 +60,7 @@ ASSUMPTIONS = [
     "a coercion that keeps Python == (True for an int parameter, 1 for a float parameter) is not counted as a silent change",
     "float32 parameters are exercised only with float32-representable doubles (a double float32 cannot hold is ambiguous in the statement)",
     "kwargs received by the implementation are observed for in-process transports; for the subprocess transport only the returned value",
+    "the shm transport runs with the shm size gate at 0 (as VGI_RPC_SHM_MIN_BATCH_BYTES=0) so that the boundary values actually travel through the segment",
 ]
 
 TRANSPORTS_Q = ["mem", "http"]
@@ -294,6 +295,7 @@ class Driver:
         self.proto, self.impl, self.methods = build_protocol(thorough)
         self.conn: Any = None
         self.observes = kind != "subprocess"
+        self._shm_min: int | None = None
 
     def open(self) -> None:
         from vf.kit.transports import Conn
@@ -304,10 +306,23 @@ class Driver:
 
             os.environ["C02_TIER"] = "thorough" if self.thorough else "quick"
             kw["worker_module"] = "vf.kit.c02_worker"
+        if self.kind == "shm":
+            # route every batch through the segment (same as VGI_RPC_SHM_MIN_BATCH_BYTES=0); with the 128 KiB default
+            # none of the boundary values would ever leave the pipe
+            import vgi_rpc.shm as shm_mod
+
+            if self._shm_min is None:
+                self._shm_min = shm_mod.SHM_MIN_BATCH_BYTES
+            shm_mod.SHM_MIN_BATCH_BYTES = 0
         self.conn = Conn(self.kind, protocol=self.proto, impl=self.impl, on_log=None, **kw)
         self.conn.__enter__()
 
     def close(self) -> None:
+        if self._shm_min is not None:
+            import vgi_rpc.shm as shm_mod
+
+            shm_mod.SHM_MIN_BATCH_BYTES = self._shm_min
+            self._shm_min = None
         if self.conn is not None:
             try:
                 self.conn.__exit__(None, None, None)
@@ -457,18 +472,18 @@ def run_item(ctx: Any, drivers: dict[str, Driver], item: Any, only: int | None =
             for meth in (f"e_{n}", f"d_{n}"):
                 if want(idx):
                     out = judge_good(ctx, drv, meth, {"x": v}, {"x": v}, v, n, {"item": item, "i": idx}, base)
-                    ctx.case(sample={"transport": tr, "call": f"{meth}(x={v!r:.60})", "outcome": out}, nontrivial=(tr, ts.kind, vclass(v)), outcome=(tr, "good", out))
+                    ctx.case(sample=None if ctx.evaluations % 97 else {"transport": tr, "call": f"{meth}(x={v!r:.60})", "outcome": out}, nontrivial=(tr, ts.kind, vclass(v)), outcome=(tr, "good", out))
                 idx += 1
         if want(idx):
             out = judge_good(ctx, drv, f"d_{n}", {}, {"x": ts.default}, ts.default, n, {"item": item, "i": idx}, base)
-            ctx.case(sample={"transport": tr, "call": f"d_{n}() default {ts.default!r:.60}", "outcome": out}, nontrivial=(tr, ts.kind, "default"), outcome=(tr, "default", out))
+            ctx.case(sample=None if ctx.evaluations % 97 else {"transport": tr, "call": f"d_{n}() default {ts.default!r:.60}", "outcome": out}, nontrivial=(tr, ts.kind, "default"), outcome=(tr, "default", out))
         idx += 1
         for label, v in ts.bad:
             if label == "none" and n.startswith("o_"):
                 continue
             if want(idx):
                 out = judge_bad(ctx, drv, f"e_{n}", n, label, "x", {"x": v}, {"item": item, "i": idx})
-                ctx.case(sample={"transport": tr, "call": f"e_{n}(x={v!r:.60}) [{label}]", "outcome": out}, nontrivial=(tr, ts.kind, "bad-" + label), outcome=(tr, "bad", out))
+                ctx.case(sample=None if ctx.evaluations % 97 else {"transport": tr, "call": f"e_{n}(x={v!r:.60}) [{label}]", "outcome": out}, nontrivial=(tr, ts.kind, "bad-" + label), outcome=(tr, "bad", out))
             idx += 1
     else:
         ta = tab[n]
@@ -480,7 +495,7 @@ def run_item(ctx: Any, drivers: dict[str, Driver], item: Any, only: int | None =
                 if want(idx):
                     o1 = judge_good(ctx, drv, f"p_{n}_{b}", {"a": x, "b": y}, {"a": x, "b": y}, x, f"{n},{b}", {"item": item, "i": idx}, base)
                     o2 = judge_good(ctx, drv, f"q_{n}_{b}", {"b": y, "a": x}, {"a": x, "b": y}, y, f"{n},{b}", {"item": item, "i": idx}, base)
-                    ctx.case(sample={"transport": tr, "call": f"p/q_{n}_{b}(a={x!r:.40}, b={y!r:.40})", "outcome": [o1, o2]}, nontrivial=(tr, "pair", ta.kind, tb.kind), outcome=(tr, "pair", o1, o2))
+                    ctx.case(sample=None if ctx.evaluations % 97 else {"transport": tr, "call": f"p/q_{n}_{b}(a={x!r:.40}, b={y!r:.40})", "outcome": [o1, o2]}, nontrivial=(tr, "pair", ta.kind, tb.kind), outcome=(tr, "pair", o1, o2))
                 idx += 1
             for i in range(len(va)):
                 if want(idx):
